@@ -142,13 +142,13 @@ def H_fullgrid(ctx, cfg):
     acc.info = info
     nb = S.grid_bits(grid)
     ids, payloads, allb = [], [], []
+    ctx.input("payloads", allb)
     for i, cc in enumerate(_grid_coords(grid, cfg["order"])):
         pl = S.payload(f"d{i}", 1 + i % 2)
         allb.append(list(pl.bs))
         acc.store_chunk(pl, S.KEY, cc)
         ids.append(z3.BitVecVal(S.morton_int(nb, (cc[0], cc[2], cc[4])), 64))
         payloads.append(pl)
-    ctx.input("payloads", allb)
     for fid, expr in regions_for(PROPERTY, "fullgrid"):
         ctx.region(fid, builtins.bool(eval(expr, {"cfg": cfg})))
     acc.close()
@@ -172,6 +172,7 @@ def H_twoscales(ctx, cfg):
     acc.info = info
     per_scale = {S.KEY: (grid, [], []), "s1": (g2, [], [])}
     allb = []
+    ctx.input("payloads", allb)
     order = []
     for key, (g, _, _) in per_scale.items():
         order += [(key, cc) for cc in _grid_coords(g, "raster")]
@@ -183,7 +184,6 @@ def H_twoscales(ctx, cfg):
         g, ids, pls = per_scale[key]
         ids.append(z3.BitVecVal(S.morton_int(S.grid_bits(g), (cc[0], cc[2], cc[4])), 64))
         pls.append(pl)
-    ctx.input("payloads", allb)
     acc.close()
     env.run_atexit()
     ctx.sample(dict(grid=grid, scales=2, files=sorted(p for p in env.fs.files if p.endswith(".shard"))))
@@ -277,7 +277,8 @@ def replay(cfg, cex):
                 order += [(key, cc) for cc in _grid_coords(g, "raster")]
             order.sort(key=lambda kc: (kc[1][::2], kc[0]))
             try:
-                for (key, cc), pl in zip(order, inp["payloads"]):
+                pay = list(inp["payloads"]) + [[7]] * (len(order) - len(inp["payloads"]))
+                for (key, cc), pl in zip(order, pay):
                     acc.store_chunk(bytes(pl), key, cc)
                     g, ids, pls = per_scale[key]
                     ids.append(S.morton_int(S.grid_bits(g), (cc[0], cc[2], cc[4])))
